@@ -9,7 +9,7 @@ INFO = dict(
     files=["dissect/cobaltstrike/c2.py", "dissect/cobaltstrike/utils.py"],
     bounds=dict(
         quick="client programs: every sequence of <=2 encoder steps over {append, prepend, base64, base64url, netbios, netbiosu, mask} "
-        "x 4 terminations {print, header, parameter, uri-append}, payload of 0,1,2,3,5 symbolic bytes, prepend/append arguments of 0..2 "
+        "x terminations {print, header, parameter, uri-append} (all four for <=1 step, rotating for 2 steps), payload of 0,1,2,3,5 symbolic bytes, prepend/append arguments of 0..2 "
         "symbolic bytes, fresh symbolic 32-bit mask per mask step; selected two-block (id+output) programs with static _HEADER / "
         "_PARAMETER / _HOSTHEADER decorations; initial request in {None, empty, client-style with URI and headers}; server output "
         "programs (recover format, integer lengths 0..2 symbolic-concrete) of <=2 decoder steps",
@@ -35,7 +35,7 @@ def _lookup(s6, alphabet):
     return e
 
 
-def ref_b64(cells, alphabet):
+def ref_b64(cells, alphabet, pad=True):
     out = []
     for i in range(0, len(cells), 3):
         grp = cells[i:i + 3]
@@ -46,7 +46,7 @@ def ref_b64(cells, alphabet):
         for j in range(4):
             if j <= n:
                 out.append(z3.simplify(_lookup(z3.Extract(23 - 6 * j, 18 - 6 * j, bits), alphabet)))
-            else:
+            elif pad:
                 out.append(ord("="))
     return [c.as_long() if (not isinstance(c, int) and z3.is_bv_value(c)) else c for c in out]
 
@@ -59,8 +59,9 @@ def ref_netbios(cells, base):
     return [c.as_long() if z3.is_bv_value(c) else c for c in out]
 
 
-def ref_encode(steps, payload_cells, masks):
-    """steps: list of (name, arg-cells|None). Returns cells."""
+def ref_encode(steps, payload_cells, masks, pad=True):
+    """steps: list of (name, arg-cells|None). Returns cells. pad=False: the reference peer emits base64 / base64url
+    without '=' padding (the library's decoder adds '==' precisely to accept such peers)."""
     data = list(payload_cells)
     mi = 0
     for name, arg in steps:
@@ -69,9 +70,9 @@ def ref_encode(steps, payload_cells, masks):
         elif name == "prepend":
             data = list(arg) + data
         elif name == "base64":
-            data = ref_b64(data, STD)
+            data = ref_b64(data, STD, pad)
         elif name == "base64url":
-            data = ref_b64(data, URL)
+            data = ref_b64(data, URL, pad)
         elif name == "netbios":
             data = ref_netbios(data, ord("a"))
         elif name == "netbiosu":
@@ -197,6 +198,28 @@ def h_client(blocks, L, initial):
     return body
 
 
+def h_reference_unpadded(encs, term, L):
+    """direction reference -> library: a message produced by the reference encoder WITHOUT base64 padding (fixed
+    symbolic masks) is recovered by the library to the original data"""
+    def body(ctx):
+        steps, info = build_program(ctx, [("metadata", encs, term, [])])
+        payload = sym_bytes("metadata", L)
+        masks = [sym_int("mask%d" % i, 0, 0xFFFFFFFF) for i, e in enumerate(encs) if e == "mask"]
+        mterms = [mask_term(m) for m in masks]
+        (field, rsteps, term_, tname) = info[0]
+        enc = SymBytes(ref_encode(rsteps, payload.cells, mterms, pad=False))
+        encv = V.unwrap(enc) if is_native() else enc
+        req = c2.HttpRequest(method=b"GET", uri=encv if term == "uri_append" else b"", params={tname: encv} if term == "parameter" else {},
+                             headers={tname: encv} if term == "header" else {}, body=encv if term == "print" else b"")
+        t = call(c2.HttpDataTransform, steps)
+        kind, back = outcome(I.getattr(t, "recover"), req)
+        ctx.prove(kind == "ok", "library recovers a reference-encoded (unpadded base64) message (%r)" % (back,))
+        if kind == "ok":
+            ctx.prove(back.metadata is not None and deep_eq(as_bytes(back.metadata), payload) if back.metadata is not None else False,
+                      "library-recover(reference message without base64 padding) == x")
+    return body
+
+
 def h_server(decs, L, lens):
     """server output program in recover format (as parse_recover_binary produces it): print, then decoders"""
     def body(ctx):
@@ -248,8 +271,12 @@ def instances(tier):
     for k in range(1, maxlen + 1):
         seqs += list(itertools.product(ENC, repeat=k))
     Ls = (0, 1, 2, 3, 5) if q else (0, 1, 2, 3, 4, 5, 6, 7)
-    for encs in seqs:
-        for term in TERM:
+    for si, encs in enumerate(seqs):
+        for ti, term in enumerate(TERM):
+            # placement is independent of the encoder steps: in the quick tier two-step programs rotate through the
+            # terminations instead of taking the full product (the thorough tier takes it)
+            if q and len(encs) == 2 and ti != si % 4:
+                continue
             for L in Ls:
                 if len(encs) == 3 and L not in (0, 2, 5, 7):
                     continue
@@ -258,6 +285,14 @@ def instances(tier):
                 blocks = [("metadata", encs, term, [])]
                 name = "client %s -> %s L=%d" % ("/".join(encs) or "-", term, L)
                 out.append(Instance(name, h_client(blocks, L, "none"), dict(kind="client", steps=list(encs), term=term, L=L, cost=L + 1)))
+    # reference -> library direction with an unpadded base64 peer
+    for encs in seqs:
+        if not any(e.startswith("base64") for e in encs):
+            continue
+        for L in ((0, 1, 2, 3) if q else (0, 1, 2, 3, 4, 5, 7)):
+            term = TERM[(len(encs) + L) % 4]
+            out.append(Instance("reference(unpadded) %s -> %s L=%d" % ("/".join(encs), term, L), h_reference_unpadded(encs, term, L),
+                                dict(kind="reference_unpadded", steps=list(encs), term=term, L=L)))
     # initial requests, static decorations, two-block programs
     statics = [("_HEADER", b"Accept: */*"), ("_PARAMETER", b"k=v"), ("_HOSTHEADER", b"Host: example.org")]
     multi = []
